@@ -46,6 +46,32 @@ MUTANTS = [
       [(RNT, "static const Jacobian Jr = Jacobian::Identity();", "const static Jacobian Jr = Jacobian::Identity();", 1)]),
     N("effect-drop-static", ["C14", "C09"],
       [(RNT, "static const Jacobian Jr = Jacobian::Identity();", "const Jacobian Jr = Jacobian::Identity();", 1)]),
+    # ---------------- R-FWD (C04) ------------------------------------------------------------------
+    B("fwd-tangent-plus-is-rplus", ["C04"],
+      [(TB, "  return m.lplus(derived(), J_mout_m, J_mout_t);\n}\n\ntemplate <class _Derived>\ntemplate <typename _DerivedOther>", "  return m.rplus(derived(), J_mout_m, J_mout_t);\n}\n\ntemplate <class _Derived>\ntemplate <typename _DerivedOther>", 1)],
+      ["R-FWD.alias", "t.plus(X)"]),
+    B("fwd-tangent-rplus-jacobians-swapped", ["C04"],
+      [(TB, "  return m.rplus(derived(), J_mout_m, J_mout_t);", "  return m.rplus(derived(), J_mout_t, J_mout_m);", 1)],
+      ["R-FWD.roles", "t.rplus(X)"]),
+    B("fwd-rminus-is-lminus", ["C04"],
+      [(LGB, "  const Tangent t = m.inverse().compose(derived()).log();", "  const Tangent t = derived().compose(m.inverse()).log();", 1)],
+      ["R-FWD.definition", "rminus"]),
+    B("fwd-free-rminus-calls-lminus", ["C04"],
+      [("include/manif/functions.h", "  return lie_group_lhs.rminus(lie_group_rhs, J_t_ma, J_t_mb);", "  return lie_group_lhs.lminus(lie_group_rhs, J_t_ma, J_t_mb);", 1)],
+      ["R-FWD.alias", "manif::rminus"]),
+    B("fwd-operator-minus-swapped-operands", ["C04"],
+      [(LGB, "  return derived().rminus(m);", "  return m.rminus(derived());", 1)],
+      ["R-FWD.alias", "operator-"]),
+    B("fwd-between-order", ["C04"],
+      [(LGB, "  const LieGroup mc = inverse().compose(m);", "  const LieGroup mc = m.compose(inverse());", 1)],
+      ["R-FWD.definition", "between"]),
+    B("fwd-inplace-plus-uses-lplus", ["C04"],
+      [(LGB, "  derived() = derived().rplus(t);", "  derived() = derived().lplus(t);", 1)],
+      ["R-FWD.inplace"]),
+    N("fwd-rminus-through-between", ["C04", "C09", "C05"],
+      [(LGB, "  const Tangent t = m.inverse().compose(derived()).log();", "  const Tangent t = m.between(derived()).log();", 1)]),
+    N("fwd-plus-direct", ["C04"],
+      [(LGB, "  return derived().rplus(t, J_mout_m, J_mout_t);", "  return rplus(t, J_mout_m, J_mout_t);", 1)]),
     # ---------------- R-TABLE (C07, C06.a) --------------------------------------------------------
     B("table-se3-generator-sign", ["C07"],
       [(SE3T, "                             Scalar(-1), Scalar(0), Scalar(0), Scalar(0),\n                             Scalar( 0), Scalar(0), Scalar(0), Scalar(0) ).finished());\n        return E4;",
